@@ -3020,8 +3020,9 @@ class LinearOperator(object):
                 arg_classes = ", ".join(arg.__class__.__name__ for arg in args)
                 kwarg_classes = ", ".join(f"{key}={val.__class__.__name__}" for key, val in kwargs.items())
                 raise NotImplementedError(f"torch.{name}({arg_classes}, {kwarg_classes}) is not implemented.")
-            if func is torch.add and kwargs.get("alpha") is not None:
-                # torch.add(x, op, alpha=a) is x + a * op: swapping the operands must not move the scaling onto x
+            if func in (torch.add, torch.sub) and kwargs.get("alpha") is not None:
+                # torch.add(x, op, alpha=a) is x + a * op (torch.sub: x - a * op): swapping the operands must not move the
+                # scaling onto x (and __rsub__ takes no alpha)
                 return getattr(cls, _HANDLED_SECOND_ARG_FUNCTIONS[func])(args[1] * kwargs["alpha"], args[0])
             # Hack: get the appropriate class function based on its name
             # As a result, we will call the subclass method (when applicable) rather than the superclass method
